@@ -337,6 +337,8 @@ def table_line(r):
     key = r["key"]
     k = d["k"]
     esc = key.replace('"', '\\"')
+    if k == "slice" and d["elem"]["k"] == "slice":
+        return f'    t.push(("{esc}", Box::new(SliceSliceSrc::<{rust_type(d["elem"]["elem"])}>::new())));'
     if k == "slice":
         return f'    t.push(("{esc}", Box::new(SliceSrc::<{rust_type(d["elem"])}>::new())));'
     if k == "seriter":
